@@ -240,8 +240,9 @@ def _compression(db, chk, tf, tm, tp):
     for mod, q, kind in sites:
         f = mod.func(q)
         src = ast.unparse(f)
-        gz = [c for c in ast.walk(f) if isinstance(c, ast.Call) and call_name(c) == "gzip.open"]
-        plain = [c for c in ast.walk(f) if isinstance(c, ast.Call) and call_name(c) == "open"]
+        # uses of the two openers, called directly or selected by reference (`opener = gzip.open if ... else open`)
+        gz = [c for c in ast.walk(f) if isinstance(c, ast.Attribute) and isinstance(c.ctx, ast.Load) and ast.unparse(c) == "gzip.open"]
+        plain = [c for c in ast.walk(f) if isinstance(c, ast.Name) and isinstance(c.ctx, ast.Load) and c.id == "open"]
         tests = [n for n in ast.walk(f) if isinstance(n, ast.Call) and isinstance(n.func, ast.Attribute) and n.func.attr == "endswith" and n.args and lit(n.args[0]) in (".gz", "gz")]
         # each gzip.open must be selected by a suffix test: enclosing If / IfExp whose test is one of `tests`
         guarded = True
